@@ -47,6 +47,16 @@ NATIVE = {
         functions=['Multiboot2Header::find_header (8192-byte search window clause)']),
 }
 
+# V obligations with a COMPLETE Kani proof of the *same contract*: if the V proof fails while
+# that K proof still passes, the failure is proof brittleness (undecided in V, holds by K)
+SAME_CONTRACT_FULL = {
+    'u_common::increase_to_alignment': ['k_increase_to_alignment', 'k_increase_to_alignment_contract'],
+    'u_canary::increase_to_alignment': [],
+    'u_hdr_core::Multiboot2BasicHeader::calc_checksum': ['k_mb2hdr_checksum_law_all'],
+    'u_hdr_core::Multiboot2BasicHeader::verify_checksum': ['k_mb2hdr_verify_checksum_iff_all'],
+    'u_mb2_fb::FramebufferTypeId::try_from': ['k_fb_type_all_bytes'],
+}
+
 # V obligation -> K harnesses of the same contract (run for a counterexample
 # when the V proof fails)
 PAIRS = {
@@ -221,6 +231,11 @@ for _frag in ('registry_mb2_sized', 'registry_mb2_dst', 'registry_header', 'regi
 FORCE_QUICK = {'k_efi_mmap_withheld', 'k_get_tag_first_match', 'k_tags_walk', 'k_tagiter_clone_history', 'k_module_iter',
                'k_efi_iter_wellformed', 'k_efi_iter_any', 'k_new_boxed_layout', 'k_mb2hdr_find_header_small'}
 _extra_props = {'k_module_iter': ['C03']}
+# constructors of the header crate's DST kind allocate through new_boxed with a 4-aligned header type:
+# Kani's dealloc check on Box drop is the C16 "freed with the layout it was allocated with" obligation
+for _h in list(HARNESSES):
+    if _h.startswith('k_inforeq_new'):
+        _extra_props.setdefault(_h, []).append('C16')
 # typed getters select by the kinds' ID numbers: the ID / conversion-table harnesses also serve C04 (and C11 in the header crate)
 for _h, _spec in list(HARNESSES.items()):
     if 'C20' in _spec.get('props', []) and _spec['crate'] == 'multiboot2':
